@@ -132,6 +132,8 @@ class Recorder:
             except Exception:  # noqa: BLE001
                 info["ed_ok"] = False
         info["model_ok"] = (kwargs.get("model") is machine.model) if machine is not None else None
+        info["mid"] = id(_real(machine)) if machine is not None else None
+        info["sid"] = id(self_obj) if self_obj is not None else None
         info["args"] = [a if isinstance(a, (int, str, float, type(None))) else repr(a) for a in args]
         info["ukw"] = {
             k: (v if isinstance(v, (int, str, float, type(None))) else repr(v))
@@ -252,10 +254,12 @@ class Recorder:
         """gid: unique id of this guard function (name@provider). Returns the valuation."""
         kwargs = kwargs or {}
         v = self.val.get(name, True)
+        if isinstance(v, dict):
+            v = v.get(gid.split("@")[1], True)
         ev = kwargs.get("event")
         tr = kwargs.get("transition")
         self.emit(
-            "guard", g=gid, name=name, tok=kwargs.get("_tok"), val=bool(v) if v != "raise" else "raise",
+            "guard", g=gid, name=name, mid=id(_real(kwargs["machine"])) if kwargs.get("machine") is not None else None, tok=kwargs.get("_tok"), val=bool(v) if v != "raise" else "raise",
             event=str(ev) if ev is not None else None,
             t_src=getattr(getattr(tr, "source", None), "id", None),
             t_dst=getattr(getattr(tr, "target", None), "id", None),
@@ -268,6 +272,8 @@ class Recorder:
     def validator(self, gid, name, kwargs=None):
         kwargs = kwargs or {}
         v = self.val.get(name, "ok")
+        if isinstance(v, dict):
+            v = v.get(gid.split("@")[1], "ok")
         tr = kwargs.get("transition")
         ev = kwargs.get("event")
         self.emit(
@@ -281,6 +287,14 @@ class Recorder:
             self.emit("validator_raise", g=gid, excid=id(err))
             raise err
         return None
+
+
+def _real(machine):
+    """The engine hands a weakref proxy of the machine to initial-activation callbacks."""
+    try:
+        return machine.add_listener.__self__
+    except Exception:  # noqa: BLE001
+        return machine
 
 
 def res_repr(res):
